@@ -16,9 +16,9 @@ func init() {
 		ID:    "C12",
 		Level: "exploration",
 		Rule: "P-224/P-256/P-384/P-521 x seeded signing keys x blind keys {seeded, 1, 2, N-1, N+1, 2N+5, 2^(8len)-1, leading-zero padded} x contexts {nil, empty, 1 byte, \"ClientBlind\"-style, 300 bytes} x digests of length 0..128. " +
-			"Oracle: BlindPublicKeyWithContext == k*pk with k = hash_to_field(XMD, curve hash, DST \"ECDSA Key Blind\") of minimal-big-endian(D)||0x00||ctx recomputed by the reference (own XMD, std curve); Unblind(Blind(pk)) == pk == Blind(Unblind(pk)); two blindings commute; a BlindKeySignWithContext signature verifies under k*pk with this package's Verify and with crypto/ecdsa.Verify and under pk with neither; another blind or another context gives another key; leading-zero encodings of a blind key behave like the stripped form. " +
+			"Oracle: BlindPublicKeyWithContext == k*pk with k = hash_to_field(XMD, curve hash, DST \"ECDSA Key Blind\") of minimal-big-endian(D)||0x00||ctx recomputed by the reference (own XMD, std curve); Unblind(Blind(pk)) == pk == Blind(Unblind(pk)); two blindings commute; a BlindKeySignWithContext signature verifies under k*pk with this package's Verify and with crypto/ecdsa.Verify and under pk with neither; another blind or another context gives another key; leading-zero encodings of a blind key behave like the stripped form. Histories: 14 consecutive calls over related (blind key, context) pairs (boundary between them shifted by one byte either way, repeated pair, one bit changed, nil/empty context) with the context in one buffer refilled in place and one public-key object updated in place, each result compared with the stateless reference. " +
 			"distinct_nontrivial = distinct (curve, blind class, context length, digest length)",
-		Floors:      []string{"blind_equals_reference", "unblind_inverts", "commutes", "signature_verifies_both", "signature_fails_under_unblinded", "blind_separation", "context_separation", "P-224", "P-256", "P-384", "P-521", "edge_blind_keys"},
+		Floors:      []string{"blind_equals_reference", "unblind_inverts", "commutes", "signature_verifies_both", "signature_fails_under_unblinded", "blind_separation", "context_separation", "P-224", "P-256", "P-384", "P-521", "edge_blind_keys", "history_calls_agree_with_reference"},
 		Assumptions: []string{"a blind key is the integer D (minimal big-endian bytes); the per-curve (hash, L) table is the one of the key-blinding derivation: (SHA-256,32), (SHA-256,48), (SHA-384,72), (SHA-512,98)"},
 		Run:         runC12,
 	})
@@ -61,7 +61,108 @@ func c12BlindKey(r *core.Rand, curve elliptic.Curve, j int) ([]byte, string) {
 
 var c12DigestLens = []int{0, 1, 20, 28, 32, 48, 64, 66, 128}
 
+// c12History: consecutive calls over RELATED (blind key, context) pairs - the boundary between blind and context
+// shifted by one byte, the same pair again, one byte changed - with the context handed over in one buffer that the
+// caller refills in place between calls, and with one public-key object whose coordinates are updated in place.
+// Every result is compared with the (stateless) reference, so anything remembered from an earlier call shows.
+func c12History(c *core.Ctx, curve elliptic.Curve, r *core.Rand, tag string) {
+	name := curve.Params().Name
+	N := curve.Params().N
+	w := (N.BitLen() + 7) / 8
+	b := ScalarBytes(r, N, w)
+	b[0] |= 0x10
+	if b[w-1] == 0 {
+		b[w-1] = 7
+	}
+	cx := append([]byte{0x44}, "ctx"...)
+	type pair struct{ blind, ctx []byte }
+	pool := []pair{
+		{b, cx}, {append(clone(b), cx[0]), cx[1:]}, {b[:w-1], append([]byte{b[w-1]}, cx...)}, {b, cx},
+		{b, append(clone(cx), 0)}, {b, nil}, {b, []byte{}}, {b[:w-1], cx}, {append(clone(b), 0), cx}, {b, append([]byte{0}, cx...)},
+		{b, flipBit(cx, 3)}, {flipBit(b, 8*w-1), cx},
+	}
+	sks := [][]byte{ScalarBytes(r, N, w), ScalarBytes(r, N, w)}
+	ctxBuf := make([]byte, 0, 64)
+	pkObj := &ecdsa.PublicKey{Curve: curve, X: new(big.Int), Y: new(big.Int)}
+	var trace []string
+	steps := 14
+	for step := 0; step < steps; step++ {
+		pi := r.IntN(len(pool))
+		if step < len(pool) && r.Coin(2) {
+			pi = step // walk the pool in order half of the time (the related pairs are neighbours)
+		}
+		p := pool[pi]
+		ski := r.IntN(2)
+		trace = append(trace, fmt.Sprintf("pair%d/key%d", pi, ski))
+		var ctx []byte
+		if p.ctx != nil {
+			ctxBuf = append(ctxBuf[:0], p.ctx...) // same storage, new contents
+			ctx = ctxBuf
+		}
+		c.Eval(1)
+		d := map[string]any{"curve": name, "calls_so_far": clone2(trace), "blind_key": core.Hex(p.blind), "context": core.Hex(p.ctx), "signing_key": core.Hex(sks[ski]), "tag": tag}
+		bad := func(cls, what string) {
+			c.Violation(name+":history:"+cls, "ECDSA key blinding on "+name+" (consecutive related calls): "+what, d)
+		}
+		stop := false
+		pan, pv, where := core.Guard(func() {
+			px, py := ref.ECBaseMul(curve, new(big.Int).SetBytes(sks[ski]))
+			pkObj.X.Set(px) // one key object, updated in place
+			pkObj.Y.Set(py)
+			skS, err := ecdsa.CreateKey(curve, sks[ski])
+			must(err)
+			skB, err := ecdsa.CreateKey(curve, p.blind)
+			must(err)
+			k := ref.ECDSABlindScalar(curve, new(big.Int).SetBytes(p.blind), p.ctx)
+			wx, wy := ref.ECMul(curve, px, py, k)
+			bpk, err := ecdsa.BlindPublicKeyWithContext(curve, pkObj, skB, ctx)
+			if err != nil || bpk.X.Cmp(wx) != 0 || bpk.Y.Cmp(wy) != 0 {
+				bad("blind-differs-from-reference", "BlindPublicKeyWithContext is not pk multiplied by hash_to_field(blind key || 0x00 || context) after the calls made before it")
+				stop = true
+				return
+			}
+			upk, err := ecdsa.UnblindPublicKeyWithContext(curve, bpk, skB, ctx)
+			if err != nil || upk.X.Cmp(px) != 0 || upk.Y.Cmp(py) != 0 {
+				bad("unblind-does-not-invert", "Unblind(Blind(pk)) != pk after the calls made before it")
+				stop = true
+				return
+			}
+			digest := r.Bytes(32)
+			rr, ss, err := ecdsa.BlindKeySignWithContext(r, skS, skB, digest, ctx)
+			if err != nil || !stdECDSAVerify(curve, wx, wy, digest, rr, ss) {
+				bad("signature-does-not-verify", "a blinded-key signature does not verify under the reference's blinded key after the calls made before it")
+				stop = true
+				return
+			}
+			if p.ctx != nil && !bytesEq(ctxBuf, p.ctx) {
+				bad("context-buffer-written", "the caller's context buffer was modified")
+				stop = true
+			}
+		})
+		if pan {
+			bad("panic:"+where, "panic: "+pv)
+			return
+		}
+		if stop {
+			return
+		}
+		c.Class("history_calls_agree_with_reference")
+	}
+	c.Distinctf("%s:history:%s", name, tag)
+}
+
+func clone2(s []string) []string { return append([]string{}, s...) }
+
+func bytesEq(a, b []byte) bool { return string(a) == string(b) }
+
 func runC12(c *core.Ctx) {
+	for _, curve := range c12Curves() {
+		for h := 0; h < c.Pick(12, 400); h++ {
+			if c.Next() {
+				c12History(c, curve, c.CaseRng(), fmt.Sprint(h))
+			}
+		}
+	}
 	n := c.Pick(200, 20000)
 	for _, curve := range c12Curves() {
 		name := curve.Params().Name
